@@ -151,6 +151,8 @@ def run_case(ctx, pydsdl, lay, workdir):
         ("rootparent-rel/abs-root", rootdir.parent, [rel_to_root_parent], [rootdir], True),
         ("rootparent-rel/rel-root", rootdir.parent, [rel_to_root_parent], [Path(lay["root"])], True),
         ("rootparent-rel/abs-root/other-cwd", ws.parent, [rel_to_root_parent], [rootdir], True),
+        # the root by a (multi-component) path relative to the working directory, the target relative to the root's parent
+        ("rootparent-rel/ws-rel-root", ws, [rel_to_root_parent], [rel_root_ws], True),
         ("ws-rel/name-root", ws, [rel_to_ws], [lay["root"]], True),
         ("ws-rel/rel-root", ws, [rel_to_ws], [rel_root_ws], True),
         ("ws-rel/abs-root", ws, [rel_to_ws], [rootdir], len(lay["prefix"]) == 0),
